@@ -233,6 +233,17 @@ class ToFnId (α : Type) where
 instance : ToFnId Nat := ⟨id⟩
 instance : ToFnId MArg := ⟨MArg.fn⟩
 
+/-- `itertools.repeat(x)`: the endless iterator of one value -/
+structure Py.Rep (α : Type) where
+  val : α
+
+/-- `zip(a, b)` where `b` is a list: pairs until the shorter is exhausted (an endless `repeat` never is) -/
+class PyZip (α β : Type) (γ : outParam Type) where
+  zip : α → β → γ
+instance {α β} : PyZip (List α) (List β) (List (α × β)) := ⟨List.zip⟩
+instance {β} : PyZip MArg (List β) (List (Nat × β)) := ⟨fun f l => List.zip f.fns l⟩
+instance {α β} : PyZip (Py.Rep α) (List β) (List (α × β)) := ⟨fun r l => l.map fun c => (r.val, c)⟩
+
 def MArg.single (f : Nat) : MArg := { iterable := false, callable := true, len := none, fns := [], fn := f }
 def MArg.ofList (fs : List Nat) : MArg :=
   { iterable := true, callable := false, len := some fs.length, fns := fs, fn := 0 }
